@@ -5,7 +5,7 @@
 From Coq Require Import ZifyBool.
 From V.Lib Require Import Base Hex.
 From V.Gen Require Import C04Consts.
-From V.C04 Require Import Model Spec SpecEq DigEq Corr Wf Enc Proofs Proofs2 SigIff.
+From V.C04 Require Import Model ModelV4 Spec SpecEq SpecV4 DigEq Corr Wf Enc Proofs Proofs2 SigIff ProofsV4.
 Local Open Scope N_scope.
 
 Lemma bool_eq_iff (a b : bool) : (a = true <-> b = true) -> a = b.
@@ -66,7 +66,7 @@ Definition modelled (c : case) : bool :=
 
 Theorem bridge c : modelled c = true -> wf_case c = true -> run_case c = true -> prop_case c = true.
 Proof.
-  destruct c as [tag t coins parts txid auth shsig sigs | f t t' coins coins' o o' | |]; try discriminate; intros _ W R.
+  destruct c as [tag t coins parts txid auth shsig sigs | f t t' coins coins' o o' | | |]; try discriminate; intros _ W R.
   - cbn [run_case prop_case] in *. apply andb_true_iff in R. destruct R as [_ R]. exact R.
   - destruct o as [txid auth shsig sigs], o' as [txid' auth' shsig' sigs'].
     cbn [wf_case run_case prop_case] in *. unfold wf_obs in W. bsplit.
@@ -81,4 +81,41 @@ Proof.
       rewrite <- auth_eqb_bridge by assumption. apply eqb_true_iff. assumption.
     + rewrite <- sighash_eqb_bridge; auto; try exact Logic.I. apply eqb_true_iff. assumption.
     + apply sig_pairs_bridge; auto.
+Qed.
+
+(** * v3 / v4 mutation pairs: the signature-hash clauses of [prop_case] follow from [run_case] *)
+Lemma sighash4_eqb_bridge t t' i i' : wf_tx4 t = true -> wf_tx4 t' = true -> wf_input4 i -> wf_input4 i' ->
+  odig_eqb (sighash4_tree t i) (sighash4_tree t' i') = oview4_eqb (view4_of t i) (view4_of t' i').
+Proof.
+  intros W W' I I'. apply bool_eq_iff. rewrite odig_eqb_spec, oview4_eqb_spec.
+  destruct (sighash4_tree t i) as [d|] eqn:E, (sighash4_tree t' i') as [d'|] eqn:E'.
+  - rewrite <- (sighash4_iff_wf _ _ _ _ _ _ W W' I I' E E'). split; congruence.
+  - unfold sighash4_tree in E, E'. destruct (view4_of t i); [|discriminate]. destruct (view4_of t' i'); [discriminate|].
+    split; discriminate.
+  - unfold sighash4_tree in E, E'. destruct (view4_of t i); [discriminate|]. destruct (view4_of t' i'); [|discriminate].
+    split; discriminate.
+  - unfold sighash4_tree in E, E'. destruct (view4_of t i); [discriminate|]. destruct (view4_of t' i'); [discriminate|].
+    split; reflexivity.
+Qed.
+
+Lemma sig4_pairs_bridge t t' : wf_tx4 t = true -> wf_tx4 t' = true ->
+  forall l l', forallb wf_sig4 l = true -> forallb wf_sig4 l' = true ->
+  sig4_pairs_run t t' l l' = true -> sig4_pairs_ok t t' l l' = true.
+Proof.
+  intros W W'. induction l as [|s l IH]; intros [|s' l'] F F' R; cbn in *; try discriminate; auto.
+  bsplit. apply andb_true_iff. split; auto.
+  destruct s as [ht idx v sc co d], s' as [ht' idx' v' sc' co' d']. unfold sig4_pair_run, sig4_pair_ok in *.
+  unfold wf_sig4 in *. bsplit.
+  rewrite <- sighash4_eqb_bridge; auto; repeat split; auto with wf; unfold u32; lia.
+Qed.
+
+Theorem bridge_v4_mut f t t' o o' :
+  wf_case (CV4Mut f t t' o o') = true -> run_case (CV4Mut f t t' o o') = true -> mut4_sigs_ok t t' o o' = true.
+Proof.
+  destruct o as [txid sha shsig sigs], o' as [txid' sha' shsig' sigs'].
+  cbn [wf_case run_case mut4_sigs_ok]. unfold wf_obs4. intros W R. bsplit.
+  repeat match goal with H : Bool.eqb _ _ = true |- _ => apply eqb_prop in H end.
+  apply andb_true_iff. split.
+  - rewrite <- sighash4_eqb_bridge; auto; try exact Logic.I. apply eqb_true_iff. assumption.
+  - apply sig4_pairs_bridge; auto.
 Qed.
